@@ -143,13 +143,13 @@ def step (st : State) (w : List String) : State × String :=
       ({ st with ps := ps }, s!"{memStr mem'} files=intact")
     | _, _ => (st, "bad-op")
   | ["bl", "fresh", a, b] =>
-    -- fresh install: the directory is missing until refreshRemote's Mkdir
+    -- fresh install: New (= restart over nothing) creates the missing directory
     match hexStr a, hexStr b with
     | some ka, some kb =>
       let api (ps : PState) (k : Str) : PState :=
         let ps' := Blocklist.step ps (.mutate (.set k))
         if ps'.version > ps.version then run ps' (persistSteps ps' (ps'.pending.length - 1) 0) else ps'
-      let s1 := api { dirMissing := true } ka
+      let s1 := api (restart [] [] { dirMissing := true }) ka
       let s2 := api (Blocklist.step s1 .mkdir) kb
       (st, s!"first={fileStr s1.main} second={fileStr s2.main}")
     | _, _ => (st, "bad-op")
